@@ -199,9 +199,16 @@ def query(qname, qtype, rip, ecs=None, edns=None, maxans=1, exact=False, cmp=Fal
     ed = bool(ecs) or bool(edns)
     q = {"name": qname, "type": qtype, "class": qclass, "rip": client(rip), "edns": ed, "ecs": e, "maxans": maxans,
          "exact": exact, "cmp": cmp}
-    text = fq(qname) if qname else "."
-    if upper:
-        text = text.upper()
+    # presentation format for the driver: bytes that are not plain ASCII name characters as \DDD
+    def _lab(l):
+        out = []
+        for b in l:
+            ch = chr(b)
+            if upper and "a" <= ch <= "z":
+                ch = ch.upper()
+            out.append(ch if (48 <= b <= 57 or 65 <= b <= 90 or 97 <= b <= 122 or b in (45, 95, 33, 42)) else "\\%03d" % b)
+        return "".join(out)
+    text = (".".join(_lab(l) for l in qname) + ".") if qname else "."
     c = {"name": text, "type": qtype, "class": qclass, "rip": rip, "edns": ed, "maxans": maxans}
     if ecs:
         c["ecs"] = {"f": 1 if e["f"] == 4 else 2, "len": ecs[1], "addr": ecs[0], "scope": 0}
